@@ -184,6 +184,7 @@ pub fn counters() -> Vec<u64> {
 pub fn run(rep: &Report) {
     let seed = rep.seed;
     rep.set_rule("E-GRID: every (primitive, input shape) point of the stated grids is evaluated once against OpenSSL; a case is non-trivial when at least one output byte or an accept/reject decision is compared; distinct = distinct (primitive, shape, value-set) tuples");
+    rep.rule_add("one-byte neighbours of the small-order points; HKDF length x fill grid.");
     rep.assume("data values (keys, nonces, message bytes) come from fixed seed-derived alphabets; the arithmetic is orion's and is exercised over the shape grid only");
     rep.assume("OpenSSL 3 libcrypto is the reference for RFC 8439/7748/2104/FIPS 180-4; HKDF reference is RFC 5869 built on OpenSSL HMAC");
     let kn: Vec<([u8; 32], [u8; 12])> = (0..3)
